@@ -520,6 +520,39 @@ func c27Alphabet(names, targets []string) []c27Entry {
 	return out
 }
 
+// c27Deep is the family of entries whose name has one or two MISSING intermediate directories
+// (n, n/m: names that no other entry ever creates) below a place where an earlier entry can have
+// put a link: every multi-component-capable name of the alphabet (prefixes) and the last
+// components of the two-component names (a link created as a/b through "a -> ." lands at b).
+// Extracting such an entry makes the code under test create the missing parents (MkdirAll), so
+// the position of that call relative to the containment check becomes observable: directories
+// created through a link that leads outside are new (possibly empty) objects outside dest.
+// Types: regular file, directory, hard link (source from hsrc), symbolic link (target ".").
+func c27Deep(prefixes []string, hsrc []string, types string) []c27Entry {
+	var names []string
+	for _, suffix := range []string{"/n/f", "/n/m/f"} { // one, then two missing intermediate directories
+		for _, p := range prefixes {
+			names = append(names, p+suffix)
+		}
+	}
+	var out []c27Entry
+	for _, t := range types {
+		for _, n := range names {
+			switch t {
+			case 'f', 'd':
+				out = append(out, c27Entry{T: string(t), Name: n})
+			case 's':
+				out = append(out, c27Entry{T: "s", Name: n, Link: "."})
+			case 'h':
+				for _, src := range hsrc {
+					out = append(out, c27Entry{T: "h", Name: n, Link: src})
+				}
+			}
+		}
+	}
+	return out
+}
+
 func c27Only(al []c27Entry, t string) []c27Entry {
 	var out []c27Entry
 	for _, e := range al {
@@ -594,6 +627,27 @@ func TestVerif_C27(t *testing.T) {
 		fams = append(fams, family{"depth3/symlink(full),symlink(full),file(reduced)", [][]c27Entry{syms, syms, c27Only(red, "f")}})
 		fams = append(fams, family{"depth2/full", [][]c27Entry{full, full}})
 		r.Info["bounds"] = "all archives of <= 2 entries over the full alphabet; depth 3: all archives over the reduced alphabet, and symlink(full),symlink(full),file(reduced names)"
+	}
+	// entries with missing multi-level parents below every place a link can be (see c27Deep): after any
+	// single entry (full alphabet), and after every pair symlink, symlink|hardlink -- an archive whose first
+	// entry is a hard link ends at that entry (nothing to link to yet), and one link alone cannot leave dest
+	// unless the lexical validation itself is broken, which the depth-2 family covers.
+	{
+		prefixes := []string{"a", "b", "c", "secret", "a/b", "b/c", "b/secret", "a/c"}
+		var deep []c27Entry
+		var l1, l2 []c27Entry
+		if r.Thorough() {
+			deep = c27Deep(prefixes, []string{".", "a", "b/secret"}, "fdhs")
+			l1, l2 = c27Only(full, "s"), c27Only(full, "sh")
+		} else {
+			deep = c27Deep(prefixes, []string{"."}, "fdhs")
+			l1, l2 = c27Only(red, "s"), c27Only(red, "sh")
+		}
+		r.Info["deep_entries"] = len(deep)
+		r.Info["deep_name_prefixes"] = prefixes
+		fams = append(fams, family{"depth3/symlink,symlink|hardlink,missing-parents", [][]c27Entry{l1, l2, deep}})
+		fams = append(fams, family{"depth2/full,missing-parents", [][]c27Entry{full, deep}})
+		r.Info["bounds"] = r.Info["bounds"].(string) + "; entries with 1-2 missing intermediate directories below every link place (file, dir, hard link, symlink): after every single entry of the full alphabet and after every pair symlink, symlink|hardlink (quick: reduced alphabet, thorough: full alphabet)"
 	}
 	// a 5-entry family around "a hard link to a symlink replaces an (empty) directory that was already
 	// checked": dir D1; symlink D1/l -> up^k; dir D2; hardlink D2 => D1/l; file D2/f
